@@ -472,13 +472,55 @@ def prep_apphot(rng, scene):
     napers = int(rng.integers(1, 4))
     apers = [draw_aperture(rng, _opt(rng, *APER_CLASSES), pos) for _ in range(napers)]
     return dict(apers=apers, use_error=_use(rng), use_mask=_use(rng, 0.5), as_list=_use(rng, 0.5),
-                nonfinite=bool(scene.get('nonfinite')),
+                nonfinite=bool(scene.get('nonfinite')), moved_draw=_opt(rng, None, None, *MOVE_MODES),
                 method=_opt(rng, 'exact', 'exact', 'center', 'subpixel'), subpixels=int(rng.integers(1, 8)))
+
+
+class Holder:
+    """Shared by reference between the two legs of one case (options are copied, plain objects are not): carries
+    the aperture OBJECTS of the first leg to the second one for the 'same object moved' form of the translation."""
+
+    def __init__(self):
+        self.objs = None
+
+
+MOVE_MODES = ['iadd', 'isub', 'assign', 'assign_mutated', 'child_then_parent']
+
+
+def moved_apertures(o, specs, holder):
+    """First leg: build the apertures and remember them. Second leg: move the SAME objects to the new positions
+    with the assignment form `o['moved']` and hand them back (their lazy caches were filled by the first leg)."""
+    if holder is None or o.get('moved') is None:
+        return [build_aperture(a) for a in specs], False
+    if holder.objs is None:
+        holder.objs = [build_aperture(a) for a in specs]
+        return holder.objs, False
+    apers = holder.objs
+    for a, spec in zip(apers, specs):
+        new = np.asarray(spec['pos'], float)
+        shift = np.atleast_2d(new - np.asarray(a.positions, float))
+        if not np.allclose(shift, shift[0], rtol=0, atol=1e-9):
+            raise AssertionError('harness: moved-aperture mode needs a pure translation')
+        d = tuple(float(v) for v in np.rint(shift[0]))
+        mode = o['moved']
+        if mode in ('iadd', 'child_then_parent'):
+            a.positions += d
+        elif mode == 'isub':
+            a.positions -= (-d[0], -d[1])
+        elif mode == 'assign':
+            a.positions = np.asarray(a.positions) + np.array(d)
+        elif mode == 'assign_mutated':
+            arr = a.positions
+            arr += np.array(d)
+            a.positions = arr
+        else:
+            raise ValueError(mode)
+    return apers, True
 
 
 def run_apphot(s, o):
     from photutils.aperture import aperture_photometry
-    apers = [build_aperture(a) for a in o['apers']]
+    apers, was_moved = moved_apertures(o, o['apers'], o.get('holder'))
     arg = apers if (len(apers) > 1 or o.get('as_list')) else apers[0]
     t = aperture_photometry(s['data'], arg, error=_err(s, o), mask=_mask(s, o),
                             method=o['method'], subpixels=o['subpixels'])
@@ -496,6 +538,25 @@ def run_apphot(s, o):
         ao = a.area_overlap(d_, mask=m_, method=o['method'], subpixels=o['subpixels'])
         out[f'area_overlap_{i}'] = np.atleast_1d(ao)
         out[f'bbox_{i}'] = _aslist(a.bbox)
+        if i == 0:
+            out['mask_0'] = [m.data for m in _aslist(a.to_mask(method=o['method'], subpixels=o['subpixels']))]
+    if o.get('moved') == 'child_then_parent' and not was_moved and not apers[0].isscalar:
+        # an indexed child must be independent of its parent: evaluate the child (fills its caches), move the PARENT
+        # in place and back, evaluate the child again -> the two evaluations are handed to the check as an assertion
+        parent = build_aperture(o['apers'][0])
+        child = parent[0]
+        raw = s['data']
+        before = (child.do_photometry(raw, method=o['method'], subpixels=o['subpixels'])[0], _aslist(child.bbox),
+                  np.array(child.positions, copy=True))
+        parent.positions += (7.0, 3.0)
+        after = (child.do_photometry(raw, method=o['method'], subpixels=o['subpixels'])[0], _aslist(child.bbox),
+                 np.array(child.positions, copy=True))
+        fresh = build_aperture(dict(o['apers'][0], pos=np.asarray(o['apers'][0]['pos'])[0]))
+        out['_asserts'] = [('child_sum_after_parent_move', 'free', after[0], before[0]),
+                           ('child_bbox_after_parent_move', 'bbox', after[1], before[1]),
+                           ('child_positions_after_parent_move', 'free', after[2], before[2]),
+                           ('child_sum_vs_fresh', 'free', before[0],
+                            fresh.do_photometry(raw, method=o['method'], subpixels=o['subpixels'])[0])]
     ext = max(aper_extent(a) for a in o['apers']) + 1.5
     rows = np.column_stack([pos[:, 0] - ext, pos[:, 0] + ext, pos[:, 1] - ext, pos[:, 1] + ext])
     return out, rows
@@ -513,6 +574,10 @@ class _ApSpec(dict):
             return K('free')
         if k.startswith('bbox_'):
             return K('bbox')
+        if k.startswith('mask_'):
+            return K('img')
+        if k == '_asserts':
+            return K('skip')
         raise KeyError(k)
 
 
@@ -577,6 +642,7 @@ def prep_apstats(rng, scene):
     elif lb == 'array':
         local_bkg = rng.normal(0, 1, n)
     return dict(aper=ap, use_error=_use(rng), use_mask=use_mask, special=special,
+                moved_draw=_opt(rng, None, None, 'iadd', 'isub', 'assign', 'assign_mutated'),
                 clip=_opt(rng, None, None, 3.0, 2.5), sum_method=_opt(rng, 'exact', 'exact', 'center', 'subpixel'),
                 subpixels=int(rng.integers(1, 8)), local_bkg=local_bkg, scalar=scalar)
 
@@ -612,7 +678,7 @@ def _wrap_scalar(v, kind):
 def run_apstats(s, o):
     from astropy.stats import SigmaClip
     from photutils.aperture import ApertureStats
-    aper = build_aperture(o['aper'])
+    (aper,), _ = moved_apertures(o, [o['aper']], o.get('holder'))
     lb = o['local_bkg']
     if lb is not None and o.get('local_bkg_unit') is not None:
         lb = lb * o['local_bkg_unit']
@@ -1750,6 +1816,152 @@ def run_stats(s, o):
 
 
 # ----------------------------------------------------------------------
+# 16. isophote: elliptical sampling and a single isophote fit (representation only)
+# ----------------------------------------------------------------------
+class _FreeSpec(dict):
+    def __missing__(self, k):
+        return K('free', per_row=False)
+
+
+SPEC_ISO = _FreeSpec()
+_ISO_ATTRS = ['intens', 'int_err', 'rms', 'pix_stddev', 'grad', 'grad_error', 'eps', 'pa', 'x0', 'y0', 'ellip_err',
+              'pa_err', 'x0_err', 'y0_err', 'a3', 'b3', 'a4', 'b4', 'ndata', 'nflag', 'niter', 'stop_code', 'sarea',
+              'tflux_e', 'tflux_c', 'npix_e', 'npix_c', 'sma']
+
+
+def prep_iso(rng, scene):
+    g = scene['ggeom']
+    return dict(sma=float(_opt(rng, 6.0, 20.0, 45.0, 45.0, 60.0)),
+                integrmode=_opt(rng, 'bilinear', 'nearest_neighbor', 'mean', 'mean', 'median'),
+                x0=g['x0'] + float(rng.normal(0, 0.5)), y0=g['y0'] + float(rng.normal(0, 0.5)),
+                eps=float(np.clip(g['eps'] + rng.normal(0, 0.04), 0.05, 0.6)), pa=g['pa'] + float(rng.normal(0, 0.08)),
+                nclip=int(_opt(rng, 0, 0, 2)), fit=_use(rng, 0.7), use_mask=_use(rng, 0.3))
+
+
+def run_iso(s, o):
+    from photutils.isophote import Ellipse, EllipseGeometry, EllipseSample
+    img = s['gdata']
+    if o['use_mask'] and o.get('mask_ok', True):
+        img = np.ma.MaskedArray(np.ma.getdata(img), mask=s['gmask'] | np.ma.getmaskarray(img))
+    geom = EllipseGeometry(o['x0'], o['y0'], o['sma'], o['eps'], o['pa'])
+    out = {}
+    smp = EllipseSample(img, o['sma'], geometry=geom, integrmode=o['integrmode'], nclip=o['nclip'])
+    ang, rad, val = smp.extract()
+    out['sample_angles'], out['sample_radii'], out['sample_values'] = np.asarray(ang), np.asarray(rad), np.asarray(val)
+    smp.update()
+    out['sample_mean'], out['sample_gradient'] = smp.mean, smp.gradient
+    out['sample_gradient_error'], out['sample_sector_area'] = smp.gradient_error, smp.sector_area
+    out['sample_points'] = np.array([smp.total_points, smp.actual_points])
+    if o['fit']:
+        iso = Ellipse(img, geom).fit_isophote(o['sma'], integrmode=o['integrmode'], nclip=o['nclip'])
+        for a in _ISO_ATTRS:
+            v = getattr(iso, a)
+            out['fit_' + a] = np.nan if v is None else v
+    return out, None
+
+
+# ----------------------------------------------------------------------
+# 17. small image-taking tools that have no adapter of their own (representation only)
+# ----------------------------------------------------------------------
+SPEC_TOOLS = _FreeSpec(sf_labels=K('frame', per_row=False), cutout_data=K('img', per_row=False),
+                       cutout_bbox=K('bbox', per_row=False), cutout_slices=K('slices', per_row=False),
+                       mask_cutout=K('img', per_row=False), mask_multiply=K('img', per_row=False),
+                       epsf_data=K('free', per_row=False, rtol=1e-6, atol=1e-6),
+                       fit2dg=K('free', per_row=False, rtol=1e-6, atol=1e-6),
+                       fitfwhm=K('free', per_row=False, rtol=1e-6, atol=1e-6),
+                       imagepsf_eval=K('free', per_row=False, unit=None))
+
+
+def prep_tools(rng, scene):
+    src = scene['src'].v
+    return dict(pos=XY(src + rng.normal(0, 0.4, src.shape)), fit_shape=int(_opt(rng, 7, 9, 11)),
+                lb=(float(rng.uniform(4, 6)), float(rng.uniform(8, 11))), cut_shape=Pair((int(rng.integers(5, 15)),
+                                                                                           int(rng.integers(5, 15)))),
+                cut_mode=_opt(rng, 'trim', 'partial'), r=float(rng.uniform(2.5, 5.0)),
+                use_mask=_use(rng, 0.5), use_error=_use(rng, 0.5), thr=float(rng.uniform(2.0, 4.0)),
+                epsf=_use(rng, 0.3), depth=_use(rng, 0.4), seed=int(rng.integers(0, 2 ** 31)))
+
+
+def run_tools(s, o):
+    from astropy.convolution import convolve
+    from astropy.nddata import NDData
+    from astropy.table import Table
+    from photutils.aperture import CircularAperture
+    from photutils.background import LocalBackground, MedianBackground
+    from photutils.morphology import gini
+    from photutils.psf import EPSFBuilder, ImagePSF, extract_stars, fit_2dgaussian, fit_fwhm
+    from photutils.segmentation import SourceFinder, make_2dgaussian_kernel
+    from photutils.utils import CutoutImage, ImageDepth
+    data, mask, err = s['data'], _mask(s, o), _err(s, o)
+    pos = np.asarray(o['pos'])
+    unit = o.get('unit')
+    out = {}
+    # morphology.gini on a cutout around the first source
+    x0, y0 = (int(round(v)) for v in pos[0])
+    sl = (slice(y0 - 6, y0 + 7), slice(x0 - 6, x0 + 7))
+    out['gini'] = gini(data[sl], mask=None if mask is None else mask[sl])
+    # LocalBackground at every source
+    lb = LocalBackground(o['lb'][0], o['lb'][1], MedianBackground())
+    # LocalBackground documents `data : 2D ndarray` only (a Quantity raises TypeError in np.array(bkg)): units stripped
+    out['local_background'] = lb(data if unit is None else split_unit(data)[0], pos[:, 0], pos[:, 1], mask=mask)
+    # fit_2dgaussian / fit_fwhm
+    f2 = fit_2dgaussian(data, xypos=pos[:3], fit_shape=o['fit_shape'], fix_fwhm=False, mask=mask, error=err)
+    r = f2.results
+    out['fit2dg'] = np.column_stack([np.asarray(split_unit(r[c])[0], float) for c in ('x_fit', 'y_fit', 'fwhm_fit')])
+    out['fit2dg_flux'] = r['flux_fit']
+    out['fitfwhm'] = np.asarray(fit_fwhm(data, xypos=pos[:3], fit_shape=o['fit_shape'], mask=mask, error=err), float)
+    # CutoutImage (a view / copy of the input around a position)
+    c = CutoutImage(data, (float(pos[0, 1]), float(pos[0, 0])), tuple(o['cut_shape']), mode=o['cut_mode'])
+    out['cutout_data'] = [np.asarray(split_unit(c.data)[0], float)]
+    out['cutout_bbox'] = [c.bbox_original]
+    out['cutout_slices'] = [c.slices_original]
+    out['cutout_xyorigin'] = np.asarray(c.xyorigin)
+    # ApertureMask methods and the aperture's own photometry
+    ap = CircularAperture(pos[:3], o['r'])
+    m0 = ap.to_mask('exact')[0]
+    out['mask_cutout'] = [np.asarray(split_unit(m0.cutout(data))[0], float)]
+    out['mask_multiply'] = [np.asarray(split_unit(m0.multiply(data))[0], float)]
+    out['mask_get_values'] = m0.get_values(data, mask=mask)
+    sums, errs = ap.do_photometry(data, error=err, mask=mask)
+    out['do_photometry_sum'] = sums
+    if err is not None:
+        out['do_photometry_err'] = errs
+    # SourceFinder on the image smoothed with make_2dgaussian_kernel (astropy convolve is trusted base)
+    kern = make_2dgaussian_kernel(2.5, size=5)
+    raw = split_unit(data)[0]
+    conv = convolve(np.asarray(np.ma.getdata(raw), float), kern)
+    thr = o['thr'] * s['sigma'] * 0.45 + s.get('offset', 0.0)
+    if o.get('conv_variant') is not None:
+        conv = o['conv_variant'](conv)
+    seg = SourceFinder(npixels=5, progress_bar=False)(conv if unit is None else conv * unit, _q(thr, o), mask=mask)
+    out['sf_nlabels'] = 0 if seg is None else int(seg.nlabels)
+    if seg is not None:
+        out['sf_labels'] = np.array(seg.data)
+    # ImagePSF built from an image cutout and evaluated off-grid
+    psf_img = np.asarray(np.ma.getdata(split_unit(data)[0]))[y0 - 5:y0 + 6, x0 - 5:x0 + 6]
+    model = ImagePSF(psf_img, x_0=5.3, y_0=4.6, flux=2.0)
+    gy, gx = np.mgrid[0:11, 0:11]
+    out['imagepsf_eval'] = np.asarray(model(gx + 0.0, gy + 0.0), float)
+    if o['epsf'] and len(pos) >= 3:
+        nd = NDData(np.asarray(np.ma.getdata(split_unit(data)[0])))
+        stars = extract_stars(nd, Table({'x': pos[:, 0], 'y': pos[:, 1]}), size=11)
+        if len(stars) >= 2:
+            # one iteration, no clipping decisions: on blended / ragged scenes further iterations amplify a
+            # last-digit difference of the layout variants (strided vs contiguous reductions) by many orders
+            from astropy.stats import SigmaClip
+            epsf, _ = EPSFBuilder(oversampling=2, maxiters=1, progress_bar=False,
+                                  sigma_clip=SigmaClip(sigma=1e6, maxiters=1))(stars)
+            out['epsf_data'] = np.asarray(epsf.data, float)
+    if o['depth']:
+        dm = mask if mask is not None else np.zeros(s['mask'].shape, bool)
+        depth = ImageDepth(o['r'], nsigma=5.0, napers=60, niters=2, overlap=False, seed=o['seed'], zeropoint=25.0,
+                           progress_bar=False)
+        lim = _guard(lambda: depth(data, dm | (s['segm'] > 0)), 'depth')
+        out['depth'] = lim if isinstance(lim, Raised) else np.asarray([split_unit(v)[0] for v in lim], float)
+    return out, None
+
+
+# ----------------------------------------------------------------------
 # the table
 # ----------------------------------------------------------------------
 TR, TP, RP = 'translate', 'transpose', 'repr'
@@ -1804,6 +2016,16 @@ TABLE = [
                    'photutils.background.core:ModeEstimatorBackground.calc_background',
                    'photutils.background.core:BiweightScaleBackgroundRMS.calc_background_rms'],
        arrays=('pdata',), nddata=False, flavour='pedestal'),
+    EP('isophote', prep_iso, run_iso, SPEC_ISO, {RP},
+       must_reach=['photutils.isophote.sample:EllipseSample.extract', 'photutils.isophote.sample:EllipseSample.update',
+                   'photutils.isophote.ellipse:Ellipse.fit_isophote',
+                   'photutils.isophote.integrator:_AreaIntegrator.integrate'],
+       arrays=('gdata',), nddata=False, quantity=False, flavour='galaxy'),
+    EP('image_tools', prep_tools, run_tools, SPEC_TOOLS, {RP},
+       must_reach=['photutils.morphology.non_parametric:gini', 'photutils.psf.utils:fit_2dgaussian',
+                   'photutils.utils.cutouts:CutoutImage.__init__', 'photutils.segmentation.finder:SourceFinder.__call__',
+                   'photutils.background.local_background:LocalBackground.__call__'],
+       arrays=('data', 'error'), nddata=False, quantity=True),
     EP('calc_total_error', prep_toterr, run_toterr, SPEC_TOTERR, {RP},
        must_reach=['photutils.utils.errors:calc_total_error'], arrays=('bdata', 'error')),
 ]
